@@ -97,6 +97,8 @@ func main() {
 		semDebug(os.Args[2:])
 	case "gen":
 		genDebug(os.Args[2:])
+	case "ss":
+		ssDebug(os.Args[2:])
 	default:
 		usage()
 	}
